@@ -198,14 +198,33 @@ def run(ctx):
            ('%s with no is_local_peer_id filter: the lookup result contains the seeded local node, so a PUT is addressed to the node itself' % detail))
 
     # ---- 4. get loop
-    gb = prog.async_body(MGR + '::get')
+    gb = prog.inl(MGR + '::get', keep=r'::(send_dht_request|mark_self_queried|find_closest_nodes_local|is_local_peer_id|store_local_in_core|record_peer_success|record_peer_failure)$')
     ctx.touch(gb, len(gb.calls()))
     loop = L.main_loop_with(gb, r'::send_dht_request$')
     nf_blocks = [bi for bi, si, s in gb.stmts() if s['r']['k'] == 'agg' and s['r'].get('var') == 'GetNotFound']
     if loop is None or not nf_blocks:
         ctx.ob('GET-EXIT', 'get:loop', False, gb.where(), 'lookup loop / GetNotFound return not found')
     else:
-        kinds = L.classify_exits(gb, loop, nf_blocks, ('candidate_nodes', 'candidates'))
+        # roles, not names: the queue is what is popped in the loop, the batch what the requests are mapped over, the queried
+        # set what mark_self_queried is given
+        hq, nsq = loop
+        queue = set()
+        for c in gb.calls(r'VecDeque::<.*>::(pop_front|pop_back)$'):
+            if c.bb in nsq and c.args and 'p' in c.args[0]:
+                queue |= L.alias_of(gb, [c.args[0]['p'][0]])
+        batch = set()
+        for cs in gb.calls(r'Iterator::map$|Iterator>::map$'):
+            clos = [x for x in gb.expr(cs.args[1]).walk() if x.k == 'agg' and x.d == 'closure']
+            if clos and clos[0].a in prog.bodies and any(any(c.callee.endswith('::send_dht_request') for c in prog.bodies[i].calls()) for i in prog.family(clos[0].a)):
+                for l in L.expr_locals(gb.expr(cs.args[0])):
+                    if re.search(r'Vec<.*DHTNode', gb.local_ty(l)):
+                        batch |= L.alias_of(gb, [l])
+        queried = set()
+        for c in gb.calls():
+            if c.callee == MGR + '::mark_self_queried' and len(c.args) > 1 and 'p' in c.args[1]:
+                queried |= L.alias_of(gb, [c.args[1]['p'][0]])
+        # what the stagnation snapshot is computed from: the queue (ids of the remaining candidates)
+        kinds = L.classify_exits(gb, loop, nf_blocks, (), queue_locals=queue, batch_locals=batch, result_locals=queue | queried)
         for i, (k, c, ln) in enumerate(kinds):
             ok = k in ('queue-empty', 'batch-empty', 'budget', 'stagnation')
             note = {'stagnation': ' (infeasible: an id once popped is marked queried and can never be queued again; allow-listed)'}.get(k, '')
@@ -218,7 +237,7 @@ def run(ctx):
             if r['k'] == 'agg' and r.get('var') == 'GetNotFound':
                 op = r['ops'][r['fields'].index('peers_queried')]
                 e = gb.expr(op)
-                okq = e.mentions_call(r'HashSet::<.*>::len$') is not None and 'queried' in L._names(e)
+                okq = e.mentions_call(r'HashSet::<.*>::len$') is not None and L.touches(gb, e, queried)
                 ctx.ob('GET-EXIT', 'get:not-found-reports-queried', okq, gb.where(s.get('ln')), 'GetNotFound.peers_queried = queried_nodes.len(): %s' % okq)
         # value provenance: GetSuccess inside the loop carries the reply's value and the request key
         okval = False
